@@ -743,7 +743,7 @@ EBS = RD + "expected_http_body_size"
 @scenario("expected_http_body_size", functions=[EBS])
 def s_ebs(vc):
     kind = vc.case("kind", ["request", "response"])
-    n = vc.case("n", [0, 1, 2])
+    n = vc.case("n", list(range(int(_os.environ.get("C01_EBS_N", "2")) + 1)))
     names = [vc.sym_bytes(f"n{i}") for i in range(n)]
     vals = [vc.sym_bytes(f"v{i}") for i in range(n)]
     http11 = vc.sym_bool("http11")
